@@ -1,25 +1,36 @@
 #!/usr/bin/env python3
-"""tools/run_seeded.py <seed-id> [<prop> ...] : applies seeded/<id>/patch.diff to /repo, runs ./check for the
-given properties (default: the property named in meta.json), undoes the patch, and records what happened in
-seeded/<id>/detection.json.  Never commits anything in /repo."""
-import json, os, subprocess, sys, time
+"""tools/run_seeded.py <seed-id> [<prop> ...]
+
+Development helper: copies /repo's working tree to a scratch directory, applies seeded/<id>/patch.diff THERE
+(equivalent to `git -C /repo apply` + run + `git -C /repo checkout -- .`, but leaves /repo alone so that several
+can run at once), runs ./check for the given properties (default: the one in meta.json) against that copy via
+VERIF_REPO, and records what happened in seeded/<id>/detection.json. Evidence/replay files of these runs go to the
+scratch directory, never to /verif/evidence."""
+import json, os, shutil, subprocess, sys, time
 V = os.path.dirname(os.path.dirname(os.path.abspath(__file__)))
 sid = sys.argv[1]
 d = os.path.join(V, "seeded", sid)
 meta = json.load(open(os.path.join(d, "meta.json"))) if os.path.exists(os.path.join(d, "meta.json")) else {}
 props = sys.argv[2:] or [meta.get("property")]
-assert subprocess.run(["git", "-C", "/repo", "status", "--porcelain"], capture_output=True, text=True).stdout.strip() == "", "/repo not clean"
-subprocess.check_call(["git", "-C", "/repo", "apply", os.path.join(d, "patch.diff")])
+W = "/var/tmp/seedrun.%s.%d" % (sid, os.getpid())
+shutil.rmtree(W, ignore_errors=True)
+os.makedirs(W)
+subprocess.check_call(["rsync", "-a", "--exclude", "target", "--exclude", ".git", "/repo/", W + "/repo/"])
+subprocess.check_call(["git", "apply", os.path.join(d, "patch.diff")], cwd=W + "/repo")
 res = {}
+env = dict(os.environ, VERIF_REPO=W + "/repo", VERIF_EVIDENCE_DIR=W + "/evidence", VERIF_REPLAY_DIR=W + "/replays")
 try:
     for p in props:
         t0 = time.time()
-        r = subprocess.run([os.path.join(V, "check"), p, "--tier", os.environ.get("TIER", "quick")], cwd=V, capture_output=True, text=True)
-        lines = [l for l in r.stdout.splitlines() if l.startswith(("VIOLATION", "UNDECIDED", "OK", "KNOWN-FINDING", "  failed obligation"))]
-        res[p] = {"exit": r.returncode, "wall_s": round(time.time() - t0, 1), "lines": [l[:400] for l in lines][:12]}
-        print(sid, p, "exit", r.returncode, *[l[:200] for l in lines[:4]], sep="\n  ")
+        r = subprocess.run([os.path.join(V, "check"), p, "--tier", os.environ.get("TIER", "quick")], cwd=V, capture_output=True, text=True, env=env)
+        lines = [l for l in r.stdout.splitlines() if l.startswith(("VIOLATION", "UNDECIDED", "OK", "KNOWN-FINDING", "  failed obligation", "  undecided"))]
+        res[p] = {"exit": r.returncode, "wall_s": round(time.time() - t0, 1), "lines": [l[:500] for l in lines][:12]}
+        print(sid, p, "exit", r.returncode)
+        for l in lines[:6]:
+            print("   ", l[:260])
+        sys.stdout.flush()
 finally:
-    subprocess.check_call(["git", "-C", "/repo", "checkout", "--", "."])
+    shutil.rmtree(W, ignore_errors=True)
 det = {}
 pth = os.path.join(d, "detection.json")
 if os.path.exists(pth):
